@@ -792,4 +792,39 @@ def load_lasio(extra_shims=None, repo=None):
         setattr(ns, m, pkg[m])
     ns.items = ns.las_items
     ns.shims = shims
+    ns.state0 = _snapshot_state(pkg)
+    core.PATH_HOOKS[:] = [lambda: _restore_state(ns.state0)]
     return ns
+
+
+def _mutable_holders(pkg):
+    """(owner dict, name, container) for every module-level and class-level dict/list/set of the loaded modules"""
+    out = []
+    for mod in pkg.values():
+        for name, val in list(vars(mod).items()):
+            if name.startswith("__"):
+                continue
+            if type(val) in (dict, list, set):
+                out.append((name, val))
+            elif isinstance(val, type) and getattr(val, "__module__", "").startswith("lasio_sym"):
+                for an, av in list(vars(val).items()):
+                    if not an.startswith("__") and type(av) in (dict, list, set):
+                        out.append(("%s.%s" % (name, an), av))
+    return out
+
+
+def _snapshot_state(pkg):
+    """state that the library keeps between calls (module-level and class-level containers, e.g. caches): restored
+    before every explored path, so that re-executions are deterministic and a path sees only what it did itself"""
+    import copy
+
+    return [(val, copy.copy(val)) for _, val in _mutable_holders(pkg)]
+
+
+def _restore_state(state):
+    for live, saved in state:
+        if type(live) is list:
+            live[:] = saved
+        else:
+            live.clear()
+            live.update(saved)
